@@ -436,6 +436,37 @@ def rule_writeback(ctx, rep, rule="R-WRITEBACK"):
     return n
 
 
+def rule_unique_view(ctx, rep, rule="R-UNIQUE-VIEW"):
+    """`UniqueArc<T>` means "sole owner" to every rule that trusts the type (and to `DerefMut` / `into_inner`, which do not look at
+    the count). No safe function may therefore lend out the shared handle inside it: a `&Arc<T>` (or an `ArcBorrow`, `&OffsetArc`)
+    obtained from a `&UniqueArc<T>` can be cloned by safe code into a second owner while the unique handle keeps writing
+    (`impl AsRef<Arc<T>> for UniqueArc<T>`). Judged on signatures: a borrowed UniqueArc in, a view of a shared handle out."""
+    n = 0
+    for tag, F, E in ctx.each():
+        up = F.handle_paths.get("UniqueArc")
+        if not up:
+            continue
+        for b in F.body_list:
+            if b["kind"] not in ("Fn", "AssocFn") or b.get("unsafe") or not is_api(F, b) or "output" not in b:
+                continue
+            borrowed = [t for t in b.get("inputs", []) if F.ty(t)["k"] == "ref" and F.mentions_adt(F.ty(t)["t"], up)]
+            if not borrowed:
+                continue
+            leak = None
+            for ti in F.walk(b["output"]):
+                tt = F.ty(ti)
+                if tt["k"] == "ref" and F.handle_name(tt["t"]) in ("Arc", "OffsetArc", "ThinArc", "ArcUnion"):
+                    leak = ti
+                elif F.handle_name(ti) == "ArcBorrow":
+                    leak = ti
+            if leak is None:
+                continue
+            n += 1
+            rep.bad(rule, b["key"], "safe function `%s` lends out %s from a borrowed UniqueArc: safe code can clone that view into a second owning handle while the UniqueArc - whose DerefMut, write and into_inner never look at the count - still acts as the sole owner" % (b["sig"], F.ts(leak)), F.loc(b), tag)
+        rep.ok(rule, "no shared view of a UniqueArc", cfg=tag)
+    return n
+
+
 READ_CALLS = ("core::ptr::read", "<*const T>::read", "<*mut T>::read", "<core::ptr::non_null::NonNull<T>>::read", "core::ptr::read_unaligned")
 
 
